@@ -7,6 +7,8 @@ import subprocess
 import vlib
 from vlib import Infra, log
 
+HEALTHY_A = {"UpdateNode", "Join", "SendBestEffort", "SendReliable", "Ping", "MembersRead"}
+HEALTHY_B = {"BgSteady", "BgPeerUpdate", "UpdateNode", "Join"}
 KEYOPS = {"GetKeys", "GetKeysRead", "GetPrimaryKey", "AddKey", "UseKey", "RemoveKey"}
 
 
@@ -14,6 +16,8 @@ def conc_key(formula, line, i):
     e = json.loads(line)
     if formula.endswith("_NoRace"):
         return "%s:%s" % (formula, e["pairs"][i - 1] if 0 < i <= len(e["pairs"]) else "?")
+    if formula.endswith("_NoDeadlockConc"):
+        return "%s:%s" % (formula, e["stuck"][i - 1] if 0 < i <= len(e["stuck"]) else "?")
     return "%s:%s~%s" % (formula, e["a"], e["b"])
 
 
@@ -38,7 +42,12 @@ def conc_stage(work, res, tier, prop, replay=None):
             if k in seen:
                 continue
             seen.add(k)
-            if (c["a"] in KEYOPS) == (prop == "C17"):
+            if prop == "C04":
+                # healthy activity only: the application's calls against steady probing / gossip / push-pull and against a
+                # peer's metadata updates
+                if c["a"] in HEALTHY_A and c["b"] in HEALTHY_B:
+                    keep.append(c)
+            elif (c["a"] in KEYOPS) == (prop == "C17"):
                 keep.append(c)
         keep.sort(key=lambda c: (c["a"], c["b"]))
         reps = 1 if tier == "quick" else 4
@@ -48,14 +57,14 @@ def conc_stage(work, res, tier, prop, replay=None):
                     fh.write(json.dumps(c) + "\n")
         total = len(keep) * reps
         log("model Conc: %d pairs of operations share an object with a write (%s)" % (len(keep), prop))
-    binp = vlib.build_harness(work, race=True)
+    binp = vlib.build_harness(work, race=(prop != "C04"))
     nsh = max(1, min(vlib.NCPU // 2, 8, total))
     racelog = os.path.join(d, "race")
 
     def env_for(i):
         return {"VERIF_CASES": cases, "VERIF_TRACE": os.path.join(d, "t%d.ndjson" % i),
                 "VERIF_RACELOG": "%s%d" % (racelog, i), "GORACE": "log_path=%s%d halt_on_error=0 history_size=2" % (racelog, i),
-                "VERIF_CONC_DUR": "120ms" if tier == "quick" else "400ms"}
+                "VERIF_CONC_DUR": "120ms" if tier == "quick" else "400ms", "VERIF_CONC_PROP": prop}
     # a test binary built with -race fails the test (exit 1 / 66) when the detector reported anything: the reports are
     # what this stage is after, so only an incomplete trace counts as a failure of the harness
     vlib.run_sharded(work, binp, "TestVerifConc", nsh, env_for, timeout=1500, ok_rc=(0, 1, 66))
@@ -77,7 +86,7 @@ def conc_stage(work, res, tier, prop, replay=None):
         raise Infra("the concurrency harness ran without the race detector")
     if j["drift"]:
         log("DRIFT module=Conc what=lock-discipline cases=%d (not a verdict)" % len(j["drift"]))
-    mine = [v for v in j["verdicts"] if v[0].startswith(prop + "_")]
+    mine = [v for v in j["verdicts"] if v[0].startswith(prop + "_") and (prop != "C04" or v[0].endswith("NoDeadlockConc"))]
     if mine:
         lines = vlib.read_lines(trace, [v[1] for v in mine])
         for formula, ln, case, i in mine:
